@@ -287,6 +287,65 @@ impl Family for NullMarkedLongData {
     }
 }
 
+/// a chunk of every size 0..=2100 (and within 8 bytes of every power of two up to 2^17) followed by
+/// a 4-byte chunk for the same parameter, an execute binding types and an execute reusing them
+/// without long data: a private buffer size an implementation may introduce lies somewhere
+struct ChunkSizesDense {
+    sizes: Vec<usize>,
+}
+impl ChunkSizesDense {
+    fn new() -> Self {
+        let mut sizes: Vec<usize> = (0..=2100).collect();
+        for k in 12..=17 {
+            for d in -8i64..=8 {
+                sizes.push(((1i64 << k) + d) as usize);
+            }
+        }
+        ChunkSizesDense { sizes }
+    }
+}
+impl Family for ChunkSizesDense {
+    fn name(&self) -> String {
+        "chunks-of-every-size".into()
+    }
+    fn len(&self) -> u64 {
+        self.sizes.len() as u64 * 2
+    }
+    fn run(&self, idx: u64, st: &mut Stats) -> Result<(), Violation> {
+        let n = self.sizes[(idx / 2) as usize];
+        let second_param_too = idx % 2 == 1;
+        st.nontrivial += 1;
+        st.bump("chunks_of_every_size");
+        let data: Vec<u8> = (0..n).map(|i| (i * 3 + n) as u8).collect();
+        let blk = exec_block(
+            &[
+                if second_param_too { ExecParam { ty: 0xfc, unsigned: false, wire: None, long: true } } else { ExecParam { ty: 0x03, unsigned: false, wire: Some(vec![9, 8, 7, 6]), long: false } },
+                ExecParam { ty: 0xfc, unsigned: false, wire: None, long: true },
+            ],
+            true,
+        );
+        let mut payloads = vec![with_byte(COM_STMT_PREPARE, b"id=1 p=2"), cmd_long(1, 1, &data)];
+        if second_param_too {
+            payloads.push(cmd_long(1, 0, b"other"));
+        }
+        payloads.push(cmd_long(1, 1, b"tail"));
+        payloads.push(cmd_execute(1, 0, 1, &blk));
+        payloads.push(cmd_execute(
+            1,
+            0,
+            1,
+            &exec_block(&[ExecParam { ty: if second_param_too { 0xfc } else { 0x03 }, unsigned: false, wire: Some(if second_param_too { vec![2, b'x', b'y'] } else { vec![1, 2, 3, 4] }), long: false }, ExecParam { ty: 0xfc, unsigned: false, wire: Some(vec![1, b'q']), long: false }], false),
+        ));
+        run_payloads(&payloads, &[], st).map(|_| ()).map_err(|mut v| {
+            v.msg = format!("a chunk of {} bytes{}: {}", n, if second_param_too { ", a chunk for the other parameter in between" } else { "" }, v.msg);
+            v
+        })
+    }
+    fn describe(&self, idx: u64) -> J {
+        json!({"chunk_bytes": self.sizes[(idx / 2) as usize], "chunk_for_the_other_parameter_in_between": idx % 2 == 1})
+    }
+}
+
 pub fn build(quick: bool) -> Check {
     let alpha = alphabet();
     let prefix = vec![Action::Prepare { id: 1, n: 2, ok: true }, Action::Prepare { id: 2, n: 2, ok: true }];
@@ -326,6 +385,7 @@ pub fn build(quick: bool) -> Check {
         max_states: if quick { 3000 } else { 300_000 },
     }));
     families.push(Box::new(NullMarkedLongData::new()));
+    families.push(Box::new(ChunkSizesDense::new()));
     families.push(Box::new(BigChunk));
     families.push(Box::new(ManyLargeChunks));
     families.push(Box::new(WideLongData));
@@ -335,12 +395,12 @@ pub fn build(quick: bool) -> Check {
     Check {
         id: "C17",
         level: "model_checking",
-        rule: format!("statements of 2-4 parameters with long data for every non-empty set of parameters of which every non-empty subset is also marked NULL by the client (for those either reading is accepted; every other parameter must arrive exactly and nothing may reach the next execution); two prepared statements of 2 parameters; histories over {} actions: LONG_DATA(id 1|2, parameter 0|1|out of range, chunk \"\"|\"xy\"|\"z\"; 2000- and 12000-byte chunks), EXECUTE(bind LONG | VAR_STRING | MYSQL_TYPE_NULL | reuse; first parameter NULL), CLOSE, re-PREPARE; the client omits inline bytes for parameters with pending long data. Full tree to depth {} (thorough: depth 6 over the alphabet without the large chunks) plus BFS over model states (pending data capped at 4 bytes per parameter) with two witnesses; every interleaving of <= 7 (thorough: 9) actions over (chunk for parameter 0|1 of statement 1|2, EXECUTE 1|2) and of <= 6 (7) with CLOSE 1 / PREPARE 1 added; plus a chunk of 2*(2^24-1)+5 bytes; five chunks of 14 MiB for one parameter (70 MiB delivered); long data for parameters 15..17, 255..257, 511, 512, 999 of statements of 18..1000 parameters; plus long data followed by 8..600 inline executions of the same statement; 2..1000 chunks streamed round-robin to 2-3 parameters; 2000/12000/70000-byte buffers abandoned by CLOSE or emptied by EXECUTE followed by small long data; pairs of statement ids that agree in their low 8/16/24 bits or differ only in the top bit. Long scripted sessions: 130..4099 (thorough: up to 131101) ordinary commands of every kind on one connection in up to six mixes (even, prepare/close churn with growing ids, executions, long-data chunks, unanswered commands, text and library-answered commands) under several client/transport behaviours (pipelined, request ids advancing by 7, lock-step, 1..4093-byte reads, 7/11-byte writes), generated by a fixed rule, kept valid with the registry model and judged on the complete trace (callbacks with arguments, result, strict decode of every reply with its sequence ids). Oracle: the parameter is the in-order concatenation for that statement and parameter, the other parameters keep their inline values, delivery happens to exactly one execution and never to another statement.", alpha.len(), if quick {4} else {5}),
+        rule: format!("a chunk of every size 0..2100 and around every power of two to 2^17 followed by a second chunk, with and without a chunk for the other parameter in between; statements of 2-4 parameters with long data for every non-empty set of parameters of which every non-empty subset is also marked NULL by the client (for those either reading is accepted; every other parameter must arrive exactly and nothing may reach the next execution); two prepared statements of 2 parameters; histories over {} actions: LONG_DATA(id 1|2, parameter 0|1|out of range, chunk \"\"|\"xy\"|\"z\"; 2000- and 12000-byte chunks), EXECUTE(bind LONG | VAR_STRING | MYSQL_TYPE_NULL | reuse; first parameter NULL), CLOSE, re-PREPARE; the client omits inline bytes for parameters with pending long data. Full tree to depth {} (thorough: depth 6 over the alphabet without the large chunks) plus BFS over model states (pending data capped at 4 bytes per parameter) with two witnesses; every interleaving of <= 7 (thorough: 9) actions over (chunk for parameter 0|1 of statement 1|2, EXECUTE 1|2) and of <= 6 (7) with CLOSE 1 / PREPARE 1 added; plus a chunk of 2*(2^24-1)+5 bytes; five chunks of 14 MiB for one parameter (70 MiB delivered); long data for parameters 15..17, 255..257, 511, 512, 999 of statements of 18..1000 parameters; plus long data followed by 8..600 inline executions of the same statement; 2..1000 chunks streamed round-robin to 2-3 parameters; 2000/12000/70000-byte buffers abandoned by CLOSE or emptied by EXECUTE followed by small long data; pairs of statement ids that agree in their low 8/16/24 bits or differ only in the top bit. Long scripted sessions: 130..4099 (thorough: up to 131101) ordinary commands of every kind on one connection in up to six mixes (even, prepare/close churn with growing ids, executions, long-data chunks, unanswered commands, text and library-answered commands) under several client/transport behaviours (pipelined, request ids advancing by 7, lock-step, 1..4093-byte reads, 7/11-byte writes), generated by a fixed rule, kept valid with the registry model and judged on the complete trace (callbacks with arguments, result, strict decode of every reply with its sequence ids). Oracle: the parameter is the in-order concatenation for that statement and parameter, the other parameters keep their inline values, delivery happens to exactly one execution and never to another statement.", alpha.len(), if quick {4} else {5}),
         assumptions: vec!["an empty chunk still marks the parameter as supplied by long data (MySQL semantics: the value is the empty string)".into()],
         bounds: json!({"tree_depth": if quick {4} else {5}, "core_tree_depth": if quick {0} else {6}, "alphabet": alpha.len()}),
         exhaustive: true,
         caps_hit: vec![],
         families,
-        required: vec!["null_marked_long_data", "soak_sessions", "execute_with_pending_long_data", "multi_packet_chunks", "many_large_chunks", "wide_long_data", "bfs_states", "long_histories"],
+        required: vec!["chunks_of_every_size", "null_marked_long_data", "soak_sessions", "execute_with_pending_long_data", "multi_packet_chunks", "many_large_chunks", "wide_long_data", "bfs_states", "long_histories"],
     }
 }
